@@ -167,6 +167,8 @@ class WriterTable:
         inits = inits_before(fn, loop)
         self.states = [k for k, v in inits.items() if isinstance(v, ast.Constant) and isinstance(v.value, bool)]
         self.outs = [k for k, v in inits.items() if isinstance(v, ast.List) and not v.elts]
+        if len(self.states) == 0 and len(self.outs) == 1:
+            return self.stateless(fn, loop, ivar, evar, seq, inits, resolver)
         if len(self.states) != 1 or len(self.outs) != 1:
             raise Unknown('tie writer state/output not recognised (states=%s outputs=%s)' % (self.states, self.outs))
         self.init = inits[self.states[0]].value
@@ -211,6 +213,111 @@ class WriterTable:
                         raise Unknown('tie writer emits %r' % (v,))
                     pre, suf = v[1], v[2]
                     self.table[(s, t, last)] = (self.cls(pre, suf), (pre, suf), env[st])
+
+    def stateless(self, fn, loop, ivar, evar, seq, inits, resolver):
+        """A writer without a state variable: the decoration of entry i is a formula of the tie bits at i and i - 1 (possibly
+        through an auxiliary per-position list built before the loop).  The table's state is then the previous entry's tie
+        bit itself; entry i - 1 is never the last one, so 'tied with the next' there is just its bit."""
+        self.init = False
+        rets = [s_ for s_ in fn.body if isinstance(s_, ast.Return)]
+        if not (rets and isinstance(rets[-1].value, ast.Name) and rets[-1].value.id == self.outs[0]):
+            raise Unknown('tie writer does not return its token list')
+        consts = hoisted_consts(fn, loop, ivar, seq)
+        aux = {}
+        for k, v in inits.items():
+            if isinstance(v, ast.ListComp) and len(v.generators) == 1 and not v.generators[0].ifs and isinstance(v.generators[0].target, ast.Name):
+                itx = v.generators[0].iter
+                if isinstance(itx, ast.Call) and isinstance(itx.func, ast.Name) and itx.func.id == 'range' and len(itx.args) == 1 \
+                        and isinstance(itx.args[0], ast.Call) and isinstance(itx.args[0].func, ast.Name) and itx.args[0].func.id == 'len':
+                    aux[k] = (v.generators[0].target.id, v.elt)
+        self.table = {}
+
+        def is_prev(idx, var):
+            return isinstance(idx, ast.BinOp) and isinstance(idx.op, ast.Sub) and isinstance(idx.left, ast.Name) and idx.left.id == var \
+                and isinstance(idx.right, ast.Constant) and idx.right.value == 1
+
+        for sprev in (False, True):
+            for t in (0, 1):
+                for last in (False, True):
+                    results = []
+                    for first in ((False, True) if not sprev else (False,)):
+                        ctxt = {'shift': 0, 'var': ivar}
+                        def atom(n, env, t=t, last=last, sprev=sprev, first=first):
+                            var = ctxt['var']
+                            if isinstance(n, ast.Subscript) and isinstance(n.value, ast.Name):
+                                here = isinstance(n.slice, ast.Name) and n.slice.id == var
+                                prev = is_prev(n.slice, var)
+                                if n.value.id == self.tiep and (here or prev):
+                                    if here and ctxt['shift'] == 0:
+                                        return t
+                                    if (prev and ctxt['shift'] == 0) or (here and ctxt['shift'] == -1):
+                                        if first:
+                                            raise Raises('IndexError / wrap-around: tie bit of the entry before the first one is read')
+                                        return 1 if sprev else 0
+                                    raise Unknown('tie bit two positions back')
+                                if n.value.id == self.listp and here and ctxt['shift'] == 0:
+                                    return ('num',)
+                                if n.value.id in aux and (here or prev) and ctxt['shift'] == 0:
+                                    cv, elt = aux[n.value.id]
+                                    saved = dict(ctxt)
+                                    ctxt['shift'], ctxt['var'] = (0 if here else -1), cv
+                                    try:
+                                        if ctxt['shift'] == -1 and first:
+                                            raise Raises('the auxiliary list is read before the first entry')
+                                        return fe.ev(elt, env)
+                                    finally:
+                                        ctxt.update(saved)
+                            if isinstance(n, ast.Compare) and len(n.ops) == 1:
+                                names = {x.id for x in ast.walk(n) if isinstance(x, ast.Name)}
+                                if var in names:
+                                    # position tests: against 0 (first?) or against the length (last?)
+                                    other = n.comparators[0] if (isinstance(n.left, ast.Name) and n.left.id == var) else n.left
+                                    if isinstance(other, ast.Constant) and other.value in (0, 1) and isinstance(n.left, ast.Name) and n.left.id == var:
+                                        pos_is_zero = first if ctxt['shift'] == 0 else False
+                                        if other.value == 0:
+                                            table = {ast.Gt: not pos_is_zero, ast.NotEq: not pos_is_zero, ast.Eq: pos_is_zero, ast.LtE: pos_is_zero, ast.GtE: True, ast.Lt: False}
+                                        else:
+                                            table = {ast.GtE: not pos_is_zero, ast.Lt: pos_is_zero}
+                                        if type(n.ops[0]) in table:
+                                            return table[type(n.ops[0])]
+                                    n2 = n
+                                    if var != ivar:
+                                        import copy
+                                        n2 = copy.deepcopy(n)
+                                        for x in ast.walk(n2):
+                                            if isinstance(x, ast.Name) and x.id == var:
+                                                x.id = ivar
+                                    return last_test(n2, ivar, seq, consts, last if ctxt['shift'] == 0 else False)
+                            return NOATOM
+                        fe = FiniteEval(atom, lists=self.outs)
+                        fe.resolver = resolver
+                        env = {}
+                        if evar:
+                            env[evar] = ('num',)
+                        try:
+                            fe.run(loop.body, env)
+                        except Stop as e:
+                            if e.kind != 'continue':
+                                raise Unknown('tie writer leaves its loop (%s)' % e.kind)
+                        except Raises as r:
+                            results.append(('BAD', str(r)))
+                            continue
+                        apps = [a for a in fe.actions if a[0] == 'append']
+                        if len(apps) != 1:
+                            results.append(('BAD', 'emits %d tokens for one entry' % len(apps)))
+                            continue
+                        v = apps[0][2]
+                        if isinstance(v, tuple) and v and v[0] == 'num':
+                            v = ('tok', '', '')
+                        if isinstance(v, str) or not (isinstance(v, tuple) and v[0] == 'tok'):
+                            raise Unknown('tie writer emits %r' % (v,))
+                        results.append((self.cls(v[1], v[2]), (v[1], v[2])))
+                    if len(set(results)) != 1:
+                        self.table[(sprev, t, last)] = ('BAD', 'the first entry is decorated differently from a later entry with the same tie bits', bool(t))
+                    elif results[0][0] == 'BAD':
+                        self.table[(sprev, t, last)] = ('BAD', results[0][1], bool(t))
+                    else:
+                        self.table[(sprev, t, last)] = (results[0][0], results[0][1], bool(t) and not last)
 
     @staticmethod
     def cls(pre, suf):
